@@ -83,3 +83,62 @@ Theorem C18_tglf_rejected_iff (tok : Type) (fmt : Q -> tok) (zero_tok : tok) ext
   sp_wf sp -> (write_sep tok fmt zero_tok extra sp = None <-> coincide sp).
 Proof. exact (tglf_rejected_iff tok fmt zero_tok extra sp). Qed.
 Print Assumptions C18_tglf_rejected_iff.
+
+(* ---- flip_equiv for every other public mutator overload of SepMatrix ---- *)
+Theorem C18_flip_equiv_fixed a b dx dy m :
+  option_map m_pairs (m_addFixedRelativeSep true a b dx dy m) =
+  option_map m_pairs (m_addFixedRelativeSep true b a (sg_neg dx) (sg_neg dy) m).
+Proof. exact (flip_equiv_fixed a b dx dy m). Qed.
+Print Assumptions C18_flip_equiv_fixed.
+
+Theorem C18_setCardinalOP_flip a b c m :
+  option_map m_pairs (m_setCardinalOP true a b c m) = option_map m_pairs (m_setCardinalOP true b a (cardFlip c) m).
+Proof. exact (setCardinalOP_flip a b c m). Qed.
+Print Assumptions C18_setCardinalOP_flip.
+
+(* symmetric requests: the records stored under the two id orders differ at most in the sign bit of a zero gap of a
+   CENTRE/EQ dimension and mean the same for every placement and extra boundary gap *)
+Theorem C18_align_flip_equiv eq_y a b m :
+  opt_rel pairs_equiv (option_map m_pairs (m_alignByEquatedCoord true a b eq_y m))
+                      (option_map m_pairs (m_alignByEquatedCoord true b a eq_y m)).
+Proof. exact (align_flip_equiv eq_y a b m). Qed.
+Print Assumptions C18_align_flip_equiv.
+
+(* the position-based addFixedRelativeSep(id1,id2): both id orders store equivalent records ... *)
+Theorem C18_fixed_pos_flip_equiv a b pos m :
+  opt_rel pairs_equiv (option_map m_pairs (m_addFixedRelativeSepPos true a b pos m))
+                      (option_map m_pairs (m_addFixedRelativeSepPos true b a pos m)).
+Proof. exact (fixed_pos_flip_equiv a b pos m). Qed.
+Print Assumptions C18_fixed_pos_flip_equiv.
+
+(* ... which the present placement satisfies, for any node sizes and extra boundary gap *)
+Theorem C18_fixed_pos_frozen a b pos size extra m m' :
+  m_addFixedRelativeSepPos true a b pos m = Some m' ->
+  exists e, m_find (Nat.min a b) (Nat.max a b) m' = Some e /\
+            holds extra (place_of pos size (Nat.min a b) (Nat.max a b)) (en_sp e).
+Proof. exact (fixed_pos_frozen a b pos size extra m m'). Qed.
+Print Assumptions C18_fixed_pos_frozen.
+
+(* measuring the offset from the smaller to the larger id and passing it to the 4-argument overload stores the point reflection *)
+Theorem C18_fixed_pos_storage_orientation_refuted :
+  exists a b pos m', m_addFixedRelativeSepPos_storage_orientation a b pos [] = Some m' /\
+    forall e, m_find (Nat.min a b) (Nat.max a b) m' = Some e ->
+              ~ holds 0 (place_of pos (fun _ => (1, 1)) (Nat.min a b) (Nat.max a b)) (en_sp e).
+Proof. exact fixed_pos_storage_orientation_refuted. Qed.
+Print Assumptions C18_fixed_pos_storage_orientation_refuted.
+
+Theorem C18_free_sym a b m : m_free a b m = m_free b a m.
+Proof. exact (free_sym a b m). Qed.
+Print Assumptions C18_free_sym.
+
+Theorem C18_transformClosedSubset_all tf ids m :
+  (forall e, In e m -> mem_id (en_lo e) ids = true /\ mem_id (en_hi e) ids = true) ->
+  m_transformClosedSubset tf ids m = m_transform tf m.
+Proof. exact (transformClosedSubset_all tf ids m). Qed.
+Print Assumptions C18_transformClosedSubset_all.
+
+(* the fallback of the twin comparison (checks/c18.py): sep_equivb = true for every extra gap gives the relation above *)
+Theorem C18_sep_equivb_sound extra sp extra' sp' :
+  sep_equivb extra sp extra' sp' = true -> forall p, holds extra p sp <-> holds extra' p sp'.
+Proof. exact (sep_equivb_sound extra sp extra' sp'). Qed.
+Print Assumptions C18_sep_equivb_sound.
